@@ -30,7 +30,7 @@ from . import vtkenc as V
 from .lib import clist, cnat, cz
 
 # model = pinned behaviour of /repo (False) or the repaired behaviour (True), per finding
-REPAIRED = {"F-C06a": False, "F-C06b": False}
+REPAIRED = {"F-C06a": False, "F-C06b": False, "F-C06c": False, "F-C06d": False, "F-C06e": False}
 
 WHAT = {
     "F-C06a-merge": "F-C06a merge(): the cells and cell data of a piece that contributes no new point are lost",
@@ -38,9 +38,11 @@ WHAT = {
     "F-C06b-merger": "F-C06b StructuredFieldMerger: the merged field does not keep the numeric type of the piece fields",
     "F-C06b-file": "F-C06b parallel structured file: a field does not keep its numeric type",
     "F-C06c-pvtr": "F-C06c .pvtr of a grid that is flat in x or y: the ordinates are assembled from the wrong pieces",
+    "F-C06d-nocelldata": "F-C06d parallel structured file without cell data cannot be read (AssertionError in _merge_cell_fields)",
+    "F-C06e-pvtr-flat": "F-C06e .pvtr of a flat grid: the coordinate of the flat direction is replaced by 0",
 }
 
-HEADER = """From Coq Require Import ZArith Bool Arith List.
+HEADER = """From Coq Require Import QArith ZArith Bool Arith List.
 From FC Require Import Model.Merge Model.Structured.
 Import ListNotations.
 Local Open Scope nat_scope.
@@ -810,8 +812,8 @@ def grid_case(rng, dec):
         vals = [rng.randint(-50, 50) for _ in range(n * nc)]
         fields.append([nm, vt, nc, vals])
     warp = [rng.randint(0, 3) for _ in range(npts)] if kind == "vts" else None
-    if kind == "vts" and len(dec) != 2 and rng.random() < 0.5:
-        fields = [f for f in fields if f[0].startswith("p")]      # 1-d / 3-d .vts files without cell data
+    if (kind == "vts" and len(dec) != 2 and rng.random() < 0.5) or rng.random() < 0.12:
+        fields = [f for f in fields if f[0].startswith("p")]      # files without cell data (1-d / 3-d .vts: half of them)
     return {"stream": "pstruct", "kind": kind, "dec": [list(a) for a in dec], "axes": axes, "ext": ext, "origin": origin, "spacing": spacing,
             "ords": ords, "fields": fields, "warp": warp}
 
@@ -970,7 +972,17 @@ def diff_struct(truth, got):
     return d or None
 
 
+def flat_coordinate_lost(c, truth, got):
+    """symptom of F-C06e: the points agree in the meshed directions and are 0 in the flat ones"""
+    flat = [a for a in range(3) if a not in c["axes"]]
+    if not flat or len(truth["points"]) != len(got["points"]):
+        return False
+    return all(all(g[a] == (0 if a in flat else t[a]) for a in range(3)) for t, g in zip(truth["points"], got["points"]))
+
+
 PS_HEADER = HEADER + """
+Definition qout (o : option (list qvec)) :=
+  match o with Some l => Some (map (map (fun q => (Qnum q, Z.pos (Qden q)))) l) | None => None end.
 Definition ps_dec (exts : list (list Z)) :=
   (sizes_along_axis exts, map (domain_id exts) (locations_in (pieces_shape (merger_decomposition exts)))).
 Definition ps_field (exts : list (list Z)) (is_point : bool) (fs : list (list nat)) := pmerge 0 exts is_point fs.
@@ -1004,8 +1016,13 @@ def stream_pstruct(ctx, n_cases, maxext):
             ctx.count("pstruct:whole-file-not-ground-truth")
             ctx.notes.append(f"whole .{c['kind']} does not read as the ground truth (C07's business): {str(dw)[:100]}")
         elif dp is not None:
+            has_cf = any(not f[0].startswith("p") for f in c["fields"])
             if set(dp) == {"dtypes"}:
                 what = WHAT["F-C06b-file"]
+            elif not has_cf and dp.get("error", "").startswith("AssertionError"):
+                what = WHAT["F-C06d-nocelldata"]
+            elif c["kind"] == "vtr" and set(dp) <= {"dtypes", "points"} and "points" in dp and flat_coordinate_lost(c, truth, out["parallel"]):
+                what = WHAT["F-C06e-pvtr-flat"]
             elif (c["kind"] == "vtr" and c["axes"] != list(range(len(c["axes"]))) and set(dp) <= {"dtypes", "points", "error"}
                   and ("points" in dp or "broadcast" in dp.get("error", ""))):
                 what = WHAT["F-C06c-pvtr"]
@@ -1049,6 +1066,32 @@ def stream_pstruct(ctx, n_cases, maxext):
                          + str(next(o[1].get("decomposition_note") for o in outs if o[1].get("decomposition") is None)))
     vf = ctx.coq_eval(PS_HEADER, exprs_f, name="c06psf", shard=200)
     ctx.extra["pstruct_model_fields_evaluated"] = len(vf)
+    # PVTRReader._make_structured_mesh: the ordinates assembled from the pieces (model) vs the points read (implementation)
+    vtr = [(case, out, listed) for case, out, listed in outs if case["kind"] == "vtr"]
+    ex = []
+    for case, out, listed in vtr:
+        cexts = clist([clist([cz(x) for x in s_], "Z") for s_ in listed], "(list Z)")
+        po = clist([clist([clist([lib.cqfrac(Fraction(x, 4)) for x in case["ords"][a][s_[2 * a]:s_[2 * a + 1] + 1]], "Q") for a in range(3)], "(list Q)")
+                    for s_ in listed], "(list (list Q))")
+        ex.append(f"qout (pvtr_ordinates {lib.cbool(REPAIRED['F-C06c'])} {lib.cbool(REPAIRED['F-C06e'])} {cexts} {po})")
+    for (case, out, listed), v in zip(vtr, ctx.coq_eval(PS_HEADER, ex, name="c06pvtr", shard=100)):
+        has_cf = any(not f[0].startswith("p") for f in case["fields"])
+        readable = REPAIRED["F-C06d"] or has_cf
+        err = out["parallel"].get("error")
+        if not readable:
+            if not (err or "").startswith("AssertionError"):
+                ctx.violation("E2", "parallel structured file without cell data: model predicts the AssertionError of _merge_cell_fields, "
+                              "the implementation read the file", case, found_input=False)
+            continue
+        if v == "None":
+            if err is None or "broadcast" not in err:
+                ctx.violation("E2", ".pvtr ordinates: model predicts a broadcasting error, implementation does not raise it", case, found_input=False, impl=err)
+        else:
+            o = [[Fraction(n, d) * 4 for n, d in axis] for axis in v[1]]
+            mp = [[x, y, z] for z in o[2] for y in o[1] for x in o[0]]
+            if err is not None or [list(p) for p in out["parallel"]["points"]] != mp:
+                ctx.violation("E2", ".pvtr ordinates: model != implementation", case, found_input=False, impl=err or out["parallel"]["points"][:6], model=mp[:6])
+        ctx.tie("T2 PVTRReader ordinates vs Model.Structured.pvtr_ordinates")
 
 
 # ================================================================================================
